@@ -19,6 +19,12 @@ META = {
                    "mapper's own outputs are C01..C09/C19."),
 }
 
+# --- additions to the level description (rules added after the first version)
+META['level_text'] += " R7 (below the Driver trait): RealDriver reports Busy only on the reader's Err(Sys(EAGAIN)), and the two readers return no error other than the read() call's own."
+META["level_note"] = "Trusted: rustc MIR, tmfacts, the path walker. The kernel's edge-trigger semantics are outside the program; the mapper's own outputs are C01..C09/C19."
+META["technique"] += '; error-provenance rule below the Driver trait (Busy only on EAGAIN from read())'
+# --- end additions
+
 
 def run(ctx):
     ck = ctx.check
